@@ -50,6 +50,22 @@ CLAIMED = {
         "Tied to /repo by broker runs with bid != ask and rates in [0,1], and the fee models alone on random considerations.",
    note=TRUST + "BacktestDataHandler returns (bid, bid); the property is checked at the broker/data-handler interface with a stub whose bid != ask.",
    design="7/C05", technique="Coq proof by induction over the executed order list; Q arithmetic lemmas + correspondence check"),
+ 'C10': dict(
+   text="Machine-checked theorems over rationals (props/C10.v): for every equity, weight >= 0 and price > 0 the target is the whole number "
+        "with q*price + fees <= share < (q+1)*price + fees; q >= 0 when fees fit (c + t <= 1); the whole target costs at most E x "
+        "sum(weights used) where the weights used sum to exactly 1 unless the raw sum is ~0; zero weight -> zero; negative weight, "
+        "buffer outside [0,1], unavailable price rejected. fee_over_100_refuted exhibits the known corner K1. Tied to /repo by the "
+        "real sizer on random / exact-multiple / near-threshold / malformed vectors.",
+   note=TRUST + "np.isclose threshold modelled as the binary64 value of 1e-8. Known finding K1 (fee rates above 100 %) is listed in known_findings.json.",
+   design="7/C10", technique="Coq proof (Qfloor sandwich, lra/field over Q, induction over the asset list) + correspondence check"),
+ 'C11': dict(
+   text="Machine-checked theorems over rationals (props/C11.v): truncation-toward-zero quantity with the sign of the after-cost dollars, "
+        "|q| x price <= |after| and one more share exceeds |after| - 1; sign of after = sign of weight and |after| <= (1+f)|D| for f <= 1; "
+        "normalised gross exposure == leverage (unless raw gross ~0), giving sum |q| price <= L x equity x (1+f); non-positive leverage "
+        "and unavailable price rejected; the two corner findings K2/K3 as refutation witnesses. Tied to /repo by the real sizer on "
+        "signed random / exact-integer / near-threshold / malformed vectors.",
+   note=TRUST + "Known findings K2 (fees above 100 %) and K3 (leverage below a gross exposure that is itself below 1e-8) are listed in known_findings.json.",
+   design="7/C11", technique="Coq proof (floor/ceiling/truncation lemmas, lra/field over Q) + correspondence check"),
  'C12': dict(
    text="Machine-checked theorems (props/C12.v): end < start rejected; for start <= end with tod(end) >= tod(start) the clock's days "
         "are exactly the Mon-Fri dates of the range; events are the per-day blocks [00:00]? 14:30 21:00 [23:59]? in day order; event "
